@@ -3,7 +3,7 @@
    to /refresh and a non-200, non-429/503 status (or nothing) to /validate — every saved copy of a
    proxy session is refused and cleared at its next due check, and a check is due at the latest
    when the copy's validity deadline has passed, i.e. at most V seconds after it was sealed. *)
-From V Require Import Base Base_proofs Validators ProxyCore ProxyCore_proofs ProxyWorld ProxyWorld_proofs.
+From V Require Import Base Base_proofs SignOut SignOut_proofs Validators ProxyCore ProxyCore_proofs ProxyWorld ProxyWorld_proofs.
 From Coq Require Import ZifyBool.
 Open Scope Z_scope.
 
@@ -87,6 +87,29 @@ Proof.
 Qed.
 
 End Compose.
+
+(* ---- both services, whole histories ---------------------------------------------------------- *)
+(* the token of a proxy session that the provider's Revoke names *)
+Definition grant_token (p : provider) (s : session) : str :=
+  match p with PGoogle => s_access s | POkta => s_refresh_tok s end.
+
+(* After ANY history of requests to the authenticator (any methods, fields, cookies, IdP answers):
+   if some response cleared the cookie of session [s] (the user was told "signed out"), then the IdP
+   holds its token revoked; hence — if the proxy's back channel reports what the IdP holds — every
+   saved copy [ps] of a proxy session minted from the same grant is refused and cleared at its next
+   due check, on any host and under any policy. *)
+Theorem signed_out_copy_refused (mac : str -> str -> str) secret evs p s lower now c u host ps a :
+  In (p, s) (st_cleared (arun mac secret evs)) ->
+  grant_token p ps = revoke_token p s ->
+  (In (grant_token p ps) (st_revoked (arun mac secret evs)) -> revoked_answers a) ->
+  s_valid_dl ps < now \/ s_refresh_dl ps < now ->
+  exists e, ao_err (authenticate lower now c u host (Sealed ps) a) = Some e /\
+            ao_cookie (authenticate lower now c u host (Sealed ps) a) = CCleared /\
+            ao_session (authenticate lower now c u host (Sealed ps) a) = None.
+Proof.
+  intros Hcl Htok Hback Hdue. apply old_copy_refused; [|exact Hdue].
+  apply Hback. rewrite Htok. apply (cleared_implies_revoked mac secret evs p s Hcl).
+Qed.
 
 (* satisfiable: a session one second past its validity deadline, answers 401 / 401 *)
 Example old_copy_example :
